@@ -54,5 +54,5 @@ ProbeOk(s, res, wrote) == Known(s) => (res \notin {"ok", "pending"} /\ wrote = 0
 EndOk(s, pending, running) ==
     /\ pending = <<>> /\ s.open = <<>>
     /\ (Failed(s) /\ s.reg /\ ~s.closed) => s.reqs >= 1
-    /\ (~s.reg \/ s.closed \/ ~Failed(s)) => s.reqs = 0
+    /\ (~s.reg \/ ~Failed(s)) => s.reqs = 0            \* (no request after a deliberate close: RequestOk)
 =============================================================================
